@@ -582,7 +582,7 @@ func drive(ck *Check, tier string, seed int64) int {
 		"seed":        seed,
 		"level":       ck.Level,
 		"coverage":    cov,
-		"assumptions": ck.Assume,
+		"assumptions": append([]string{}, ck.Assume...),
 		"wall_s":      time.Since(start).Seconds(),
 		"violations":  nviol,
 	}
